@@ -44,8 +44,11 @@ HOST_FAMILIES = {
 FAMILY_ORDER = ["fr", "couk", "idn", "ghio", "lang", "special"]
 # a literal '|' inside a stem is legal as long as it is not followed by a stem
 # marker ('p:' etc.): the serialised format only splits before markers
-PATHS = ["", "/", "/a", "/a/", "/a/b", "/a//b", "/a/b/", "/a/index.html", "/a/./b", "/A", "/%61", "/a/b.html", "/a/b/c", "/a|b", "/a/Foo|Bar", "/a|b/c", "/a||b", "/a|/b"]
-QUERIES = ["", "x=1", "x=1&y=2", "y=2&x=1", "utm_source=z&x=1", "x=1&utm_source=z", "X=1", "hl=fr&x=1", "k=a|b"]
+PATHS = ["", "/", "/a", "/a/", "/a/b", "/a//b", "/a/b/", "/a/index.html", "/a/./b", "/A", "/%61", "/a/b.html", "/a/b/c", "/a|b", "/a/Foo|Bar", "/a|b/c", "/a||b", "/a|/b",
+         # spellings the URL-level functions merge: '..' climbing above the root, and
+         # the letter case of an escape that stays quoted
+         "/../a", "/a/../../a/b", "/a%3Fb", "/a%3fb"]
+QUERIES = ["", "x=1", "x=1&y=2", "y=2&x=1", "utm_source=z&x=1", "x=1&utm_source=z", "X=1", "hl=fr&x=1", "k=a|b", "k=%3d1", "k=%3D1"]
 FRAGMENTS = ["", "#f", "#/route", "#!/route"]
 PORTS = ["", ":80", ":443", ":8080", ":"]
 SCHEMES = ["http://", "https://", "", "HTTP://", "//"]
@@ -550,7 +553,10 @@ class Run(object):
             if ev["as"] == "str" and any("|" in x for x in stems):
                 stats.probe("pipe_inside_serialised_stem")
             before = repr(sorted(self.model)) if stats.collect else ""
-            self.trie.set_lru(self.lru_arg(stems, ev["as"]), value)
+            passed = self.lru_arg(stems, ev["as"])
+            self.trie.set_lru(passed, value)
+            if isinstance(passed, list):
+                passed[:] = ["s:caller", "h:reuses", "p:its", "p:list"]  # the list stays the caller's
             self.model[key] = value
             stats.event("%s|set_lru|%s|%s|%s" % (ev.get("c"), canon(stems), ev["as"], canon(ev["val"])))
             stats.transition(before + "|set_lru|" + repr(key))
